@@ -361,14 +361,25 @@ def histogram(part, c):
         con = [x for x in c["cons"] if x["id"] == c["c1"]]
         return ["frame:op%d" % c["op"][0], "frame:n%d" % c["n"], "frame:c1=%d" % c["c1"],
                 "frame:phase%s" % (con[0]["phase"] if con else "new")]
-    if part == "store":
+    if c.get("part") == "store":
         return ["store:kind%d" % o[0] for o in c["ops"]]
-    return [part]
+    return [c.get("part", part)]
+
+
+def gen_fn(rng, tier):
+    """keys and store cases share one part (one harness link): both are function-level checks of the key layout."""
+    yield from gen_keys(rng, tier)
+    yield from gen_store(rng, tier)
+
+
+def nontrivial_fn(case, inp, obs):
+    if case["part"] == "store":
+        return nontrivial_store(case, inp, obs)
+    return json.dumps(case["reqs"][0])
 
 
 PARTS = [
-    Part("keys", "c13", "storekeys", gen_keys, nontrivial=lambda c, i, o: json.dumps(c["reqs"][0]), describe=describe),
-    Part("store", "c13", "storekeys", gen_store, nontrivial=nontrivial_store, describe=describe),
+    Part("keys", "c13", "storekeys", gen_fn, nontrivial=nontrivial_fn, describe=describe),
     Part("frame", "c13", "storekeys", gen_frame, project=project_frame, nontrivial=nontrivial_frame, describe=describe),
     Part("lint", "c13", "storekeys", gen_lint, nontrivial=lambda c, i, o: None, describe=describe),
 ]
